@@ -9,6 +9,7 @@
 import Oryx.Base.Text
 import Oryx.Spec.Ws
 import Oryx.Model.WsRead
+import Oryx.Model.WsWrite
 namespace Oracle.Ws
 open Oryx Oryx.Spec.Ws
 
@@ -100,8 +101,118 @@ def handle1 (op : String) (args : List String) : Option String :=
     pure s!"{b01 (validCloseCode c)} {b01 (WsRead.isValidReceivedCloseCode c)}"
   | _, _ => none
 
+/-! ### writer scripts (C13) -/
+
+def werrStr : WsWrite.WErr → String
+  | .closeSent => "err.closeSent"
+  | .invalidControl => "err.invalidControl"
+  | .badOpcode => "err.badOpcode"
+  | .writeClosed => "err.writeClosed"
+  | .internal => "err.internal"
+
+def resStr : Option WsWrite.WErr → String
+  | none => "ok"
+  | some e => werrStr e
+
+def parseBar (s : String) : Option (List Bytes) :=
+  if s == "_" then some [] else (s.splitOn "|").mapM parseBytes
+
+def parseSlashNats (s : String) : Option (List Nat) :=
+  if s == "_" then some [] else (s.splitOn "/").mapM (·.toNat?)
+
+structure WScript where
+  c : WsWrite.WConn
+  w : Option WsWrite.MW := none
+  held : Bytes := []
+  res : List String := []
+
+def WScript.push (st : WScript) (c : WsWrite.WConn) (r : String) : WScript :=
+  { st with c := c, res := st.res ++ [r] }
+
+/-- One script token. `none` = malformed token. -/
+def wstep (st : WScript) (tok : String) : Option WScript :=
+  match tok.splitOn ";" with
+  | ["M", ty, h] => do
+    let ty ← ty.toNat?; let d ← parseBytes h
+    let (c, e) := WsWrite.writeMessage st.c ty d
+    pure (st.push c (resStr e))
+  | ["MZ", ty, cs] => do
+    let ty ← ty.toNat?; let cs ← parseBar cs
+    let (c, e) := WsWrite.writeMessageZ st.c ty cs
+    pure (st.push c (resStr e))
+  | ["K", ty, h] => do
+    let ty ← ty.toNat?; let d ← parseBytes h
+    let (c, e) := WsWrite.writeControl st.c ty d
+    pure (st.push c (resStr e))
+  | ["P", ty, h] => do
+    let ty ← ty.toNat?; let d ← parseBytes h
+    let (c, e) := WsWrite.writePrepared st.c ty d none
+    pure (st.push c (resStr e))
+  | ["PZ", ty, h, cs] => do
+    let ty ← ty.toNat?; let d ← parseBytes h; let cs ← parseBar cs
+    let (c, e) := WsWrite.writePrepared st.c ty d (some cs)
+    pure (st.push c (resStr e))
+  | ["N", ty] => do
+    let ty ← ty.toNat?
+    match WsWrite.nextWriter st.c ty with
+    | (c, .ok w) => pure { st with c := c, w := some w, held := [], res := st.res ++ ["ok"] }
+    | (c, .error e) => pure { st with c := c, w := none, res := st.res ++ [werrStr e] }
+  | ["NZ", ty] => do
+    let ty ← ty.toNat?
+    match WsWrite.nextWriter st.c ty with
+    | (c, .ok w) => pure { st with c := { c with writer := none }, w := some w, held := [], res := st.res ++ ["ok"] }
+    | (c, .error e) => pure { st with c := c, w := none, res := st.res ++ [werrStr e] }
+  | ["W", h] => do
+    let d ← parseBytes h; let w ← st.w
+    let (c, w, e) := WsWrite.mwWrite st.c w d
+    pure { st with c := c, w := some w, res := st.res ++ [resStr e] }
+  | ["S", h] => do
+    let d ← parseBytes h; let w ← st.w
+    let (c, w, e) := WsWrite.mwWriteString st.c w d
+    pure { st with c := c, w := some w, res := st.res ++ [resStr e] }
+  | ["R", ks, h] => do
+    let ks ← parseSlashNats ks; let d ← parseBytes h; let w ← st.w
+    let (c, w, e) := WsWrite.mwReadFrom st.c w ks d
+    pure { st with c := c, w := some w, res := st.res ++ [resStr e] }
+  | ["Z", h] => do
+    let d ← parseBytes h; let w ← st.w
+    let (c, w, held, e) := WsWrite.deflateChunks st.c w st.held [d]
+    pure { st with c := c, w := some w, held := held, res := st.res ++ [resStr e] }
+  | ["C"] => do
+    let w ← st.w
+    let (c, w, e) := WsWrite.mwClose st.c w
+    pure { st with c := c, w := some w, res := st.res ++ [resStr e] }
+  | ["CZ"] => do
+    let w ← st.w
+    let (c, w, e) := WsWrite.deflateClose st.c w st.held
+    pure { st with c := c, w := some w, res := st.res ++ [resStr e] }
+  | _ => none
+
+def wrun (st : WScript) : List String → Option WScript
+  | [] => some st
+  | t :: ts => do let st ← wstep st t; wrun st ts
+
+def handleW (op : String) (args : List String) : Option String :=
+  match op, args with
+  | "ws.write", role :: b :: deflate :: keys :: ops => do
+    let role ← parseRole role; let b ← b.toNat?; let d ← p01 deflate
+    let keys ← if keys == "_" then some [] else (keys.splitOn ",").mapM parseBytes
+    let st ← wrun { c := { isServer := role == .server, bufSize := b, deflate := d, keys := keys } } ops
+    pure s!"wire={toHex st.c.wire} res={listStr st.res}"
+  | "ws.trunc", [parts] => do
+    let ps ← parseBar parts
+    let (h, d) := WsWrite.truncRun [] [] ps
+    pure s!"down={toHex d} held={toHex h}"
+  | "ws.mask", [key, pos, h] => do
+    let key ← parseBytes key; let pos ← pos.toNat?; let d ← parseBytes h
+    pure s!"{toHex (WsWrite.maskBytes key pos d)} {toHex (xorMask key pos d)} {toHex (WsRead.maskBytes key pos d)}"
+  | _, _ => none
+
 def handle (op : String) (args : List String) : Option String :=
   match op, args with
+  | "ws.write", _ => handleW op args
+  | "ws.trunc", _ => handleW op args
+  | "ws.mask", _ => handleW op args
   | "ws.c14", [role, deflate, limit, fs] => do
     -- one round trip for the C14 driver: wire image | spec receiver | reader model
     let r ← handle1 "ws.recv" [role, deflate, (if limit == "0" then toString (2 ^ 63 - 1 : Nat) else limit), fs]
